@@ -117,7 +117,10 @@ class StlAstParserVisitor(LtlAstParserVisitor, StlParserVisitor):
         val = self.const_val_dict[const_name]
 
         # (a value declared through the API may be a float: read its decimal spelling, not its binary expansion)
-        out = Fraction(Decimal(str(val)))
+        try:
+            out = Fraction(Decimal(str(val)))
+        except (ArithmeticError, ValueError, TypeError):
+            raise RTAMTException('Bound {} is not a finite number: {}'.format(const_name, val))
 
         if ctx.unit() is None:
             unit = ''
